@@ -36,7 +36,7 @@ type kase struct {
 	Via string `json:"via"`
 	D   string `json:"d"`
 	B   string `json:"b"`
-	C   string `json:"c"`
+	Calls []string `json:"calls"` // call-level credential kind of each RPC made on the one connection
 }
 
 // ---- transport credentials -------------------------------------------------------------
@@ -110,12 +110,12 @@ func (p prc) GetRequestMetadata(ctx context.Context, _ ...string) (map[string]st
 	return out, nil
 }
 
-func mkPRC(kind, tag string) (credentials.PerRPCCredentials, map[string]string) {
+func mkPRC(kind, tag, salt string) (credentials.PerRPCCredentials, map[string]string) {
 	if kind == "absent" {
 		return nil, nil
 	}
 	md := map[string]string{
-		"x-" + tag + "-cred":     "Secret " + tag + " /+=~ token",
+		"x-" + tag + "-cred":     "Secret " + tag + salt + " /+=~ token",
 		"x-" + tag + "-cred-bin": string([]byte{0, 1, 0xff, 'a', 0x80, '\n'}),
 	}
 	return prc{req: kind == "req" || kind == "reqcheck", check: kind == "check" || kind == "reqcheck", md: md}, md
@@ -158,15 +158,19 @@ func certPath(name string) string {
 
 type recorder struct {
 	mu      sync.Mutex
-	streams int
-	got     map[string][]string // tag -> rendered metadata per stream in which it arrived
+	streams map[string]int      // RPC index -> streams of that RPC that reached the handler
+	got     map[string][]string // RPC index + tag -> rendered metadata per stream in which it arrived
 }
 
 func (r *recorder) handle(_ any, ss grpc.ServerStream) error {
 	md, _ := metadata.FromIncomingContext(ss.Context())
+	idx := ""
+	if v := md.Get("x-c58-i"); len(v) > 0 {
+		idx = v[0]
+	}
 	r.mu.Lock()
 	defer r.mu.Unlock()
-	r.streams++
+	r.streams[idx]++
 	for _, tag := range []string{"d", "b", "c"} {
 		seen := map[string]string{}
 		dup := false
@@ -183,21 +187,20 @@ func (r *recorder) handle(_ any, ss grpc.ServerStream) error {
 			if dup {
 				s += "dup"
 			}
-			r.got[tag] = append(r.got[tag], s)
+			r.got[idx+tag] = append(r.got[idx+tag], s)
 		}
 	}
 	return nil
 }
 
 func runCase(k kase) (row map[string]any) {
-	row = map[string]any{"ev": "case", "t": k.T, "via": k.Via, "d": k.D, "b": k.B, "c": k.C,
-		"dial": "ok", "code": 99, "streams": 0}
+	row = map[string]any{"ev": "case", "t": k.T, "via": k.Via, "d": k.D, "b": k.B, "calls": k.Calls, "dial": "ok"}
 	defer func() {
 		if p := recover(); p != nil {
 			row = map[string]any{"ev": "panic", "case": k, "msg": fmt.Sprint(p)}
 		}
 	}()
-	rec := &recorder{got: map[string][]string{}}
+	rec := &recorder{got: map[string][]string{}, streams: map[string]int{}}
 	lis := bufconn.Listen(1 << 16)
 	sopts := []grpc.ServerOption{grpc.UnknownServiceHandler(rec.handle)}
 	var tc credentials.TransportCredentials
@@ -231,10 +234,13 @@ func runCase(k kase) (row map[string]any) {
 	done := make(chan struct{})
 	go func() { srv.Serve(lis); close(done) }()
 
-	dcred, dmd := mkPRC(k.D, "d")
-	bcred, bmd := mkPRC(k.B, "b")
-	ccred, cmd := mkPRC(k.C, "c")
-	row["dsent"], row["bsent"], row["csent"] = render(dmd), render(bmd), render(cmd)
+	dcred, dmd := mkPRC(k.D, "d", "")
+	bcred, bmd := mkPRC(k.B, "b", "")
+	row["dsent"], row["bsent"] = render(dmd), render(bmd)
+	rpcs := make([]map[string]any, len(k.Calls))
+	for i := range rpcs {
+		rpcs[i] = map[string]any{"code": 99, "streams": 0, "csent": ""}
+	}
 
 	dopts := []grpc.DialOption{
 		grpc.WithContextDialer(func(ctx context.Context, _ string) (net.Conn, error) {
@@ -261,25 +267,32 @@ func runCase(k kase) (row map[string]any) {
 	if err != nil {
 		row["dial"] = "fail"
 	} else {
-		ctx, cancel := context.WithTimeout(context.Background(), 10*time.Minute) // last resort only
-		var copts []grpc.CallOption
-		if ccred != nil {
-			copts = append(copts, grpc.PerRPCCredentials(ccred))
-		}
-		cs, err := cc.NewStream(ctx, &grpc.StreamDesc{ClientStreams: true, ServerStreams: true}, "/c58.S/M", copts...)
-		if err == nil {
-			cs.CloseSend()
-			var in []byte
-			err = cs.RecvMsg(&in)
-			if err == io.EOF {
-				err = nil
+		// the RPCs of the history, one after the other on the same ClientConn (hence the same transport)
+		for i, kind := range k.Calls {
+			idx := fmt.Sprint(i + 1)
+			ccred, cmd := mkPRC(kind, "c", idx) // the value names the RPC it belongs to
+			rpcs[i]["csent"] = render(cmd)
+			ctx, cancel := context.WithTimeout(context.Background(), 10*time.Minute) // last resort only
+			ctx = metadata.AppendToOutgoingContext(ctx, "x-c58-i", idx)
+			var copts []grpc.CallOption
+			if ccred != nil {
+				copts = append(copts, grpc.PerRPCCredentials(ccred))
 			}
+			cs, err := cc.NewStream(ctx, &grpc.StreamDesc{ClientStreams: true, ServerStreams: true}, "/c58.S/M", copts...)
+			if err == nil {
+				cs.CloseSend()
+				var in []byte
+				err = cs.RecvMsg(&in)
+				if err == io.EOF {
+					err = nil
+				}
+			}
+			rpcs[i]["code"] = int(status.Code(err))
+			if err != nil {
+				rpcs[i]["err"] = err.Error()
+			}
+			cancel()
 		}
-		row["code"] = int(status.Code(err))
-		if err != nil {
-			row["err"] = err.Error()
-		}
-		cancel()
 		cc.Close()
 	}
 	// barrier: everything the client wrote before closing is read by the server before it sees EOF
@@ -287,15 +300,19 @@ func runCase(k kase) (row map[string]any) {
 	<-done
 	lis.Close()
 	rec.mu.Lock()
-	row["streams"] = rec.streams
-	for _, tag := range []string{"d", "b", "c"} {
-		g := rec.got[tag]
-		if g == nil {
-			g = []string{}
+	for i := range rpcs {
+		idx := fmt.Sprint(i + 1)
+		rpcs[i]["streams"] = rec.streams[idx]
+		for _, tag := range []string{"d", "b", "c"} {
+			g := rec.got[idx+tag]
+			if g == nil {
+				g = []string{}
+			}
+			rpcs[i][tag+"got"] = g
 		}
-		row[tag+"got"] = g
 	}
 	rec.mu.Unlock()
+	row["rpcs"] = rpcs
 	return row
 }
 
